@@ -95,6 +95,9 @@ def tmpl_jobs(tier):
     return [{"name": "TT-l%d-n%d-g%d" % (nl, na, ng), "func": "VerifHarness_TemplateText", "params": {"nlab": nl, "nann": na, "nglab": ng},
              "unwind": 40, "reach": ["end"]} for nl, na, ng in shapes]
 
+def tmplbytes_jobs(tier):
+    return [{"name": "TB-n%d" % n, "func": "VerifHarness_TemplateBytes", "params": {"n": n}, "unwind": 60, "reach": ["end", "reported", "silent"]} for n in (2, 3, 4)]
+
 COMMON = ["harness/C01/nodes.go", "harness/C01/ref.go"]
 
 PROP = {
@@ -106,6 +109,7 @@ PROP = {
         {"pkg": "./internal/parser", "harness": COMMON + ["harness/C01/top.go"], "intmode": True, "jobs": top_jobs},
         {"pkg": "./internal/checks", "harness": ["harness/C01/checks.go"], "intmode": True, "jobs": checks_jobs},
         {"pkg": "./internal/checks", "harness": ["harness/C01/checks_tmpl.go"], "intmode": True, "jobs": tmpl_jobs},
+        {"pkg": "./internal/checks", "harness": ["harness/C01/checks_tmplbytes.go"], "intmode": True, "jobs": tmplbytes_jobs},
     ],
     "bounds": {"rule mapping": "quick <= 3 key/value pairs (+ 4 pairs starting with record/alert), thorough <= 4; <= 2 collection values with <= 2 entries each",
                "group mapping": "quick <= 3 pairs (+ samples of 4), thorough <= 4; <= 2 collection values of <= 4 child nodes",
